@@ -359,7 +359,11 @@ func scenarioStart(c *hlib.RunCtx) *hlib.Violation {
 			// a process in the sidecar's role rewrites its marker before it touches
 			// the file system or starts anything (a process it starts meanwhile
 			// would take itself for the sidecar)
-			if st := info[fc.Proc]; st != nil && st.marker == "1" && fc.Proc.Env[telemetryChildVar] == "1" {
+			// (reads are harmless: what the statement forbids is a descendant of a
+			// telemetry child launching another, and anything this process starts while
+			// its marker still says 1 would take itself for the sidecar; judged for calls
+			// that change something)
+			if st := info[fc.Proc]; st != nil && st.marker == "1" && fc.Proc.Env[telemetryChildVar] == "1" && fc.Mutating {
 				fail("acts-before-marker-rewrite", "process %d runs as the telemetry child and performed %s on %s while its marker was still 1", fc.Proc.ID, fc.Op, fc.Path)
 			}
 		}
